@@ -168,7 +168,8 @@ fn huge_number(v: &JsonValue) -> bool {
 
 fn json_case(cx: &CaseCtx, rep: &mut Report, rng: &mut Rng) {
 	cx.progress("json values");
-	for i in 0..400 {
+	let count = if cx.tier.is_tiny() { 12 } else { 400 };
+	for i in 0..count {
 		let d = rng.below(5) as u32;
 		let mut v = gen_json(rng, d);
 		if i % 50 == 0 {
